@@ -101,6 +101,8 @@ fn schedule_entity_reaction_impl(
                     reactor,
                 }
             );
+        #[cfg(cobweb_verif)]
+        crate::verif::emit(crate::verif::Event::Queued{ sys: *reactor, data: None });
     }
 }
 
@@ -145,6 +147,45 @@ impl ReactCache
     pub(crate) fn despawn_sender(&self) -> Sender<Entity>
     {
         self.despawn_sender.clone()
+    }
+
+    #[cfg(cobweb_verif)]
+    pub(crate) fn verif_tracked(&self) -> Vec<TypeId>
+    {
+        self.removal_checkers.iter().map(|c| c.component_id).collect()
+    }
+
+    #[cfg(cobweb_verif)]
+    pub(crate) fn verif_tables(&self, out: &mut Vec<crate::verif::TableEntry>)
+    {
+        let mut push = |kind: &'static str, ty: Option<TypeId>, ent: Option<Entity>, handle: &ReactorHandle|
+        {
+            out.push(crate::verif::TableEntry{
+                kind, ty, ent, sys: *handle.sys_command(), rc: matches!(handle, ReactorHandle::AutoDespawn(_)),
+            });
+        };
+        for (id, reactors) in self.component_reactors.iter()
+        {
+            for h in reactors.insertion_callbacks.iter() { push("ins", Some(*id), None, h); }
+            for h in reactors.mutation_callbacks.iter() { push("mut", Some(*id), None, h); }
+            for h in reactors.removal_callbacks.iter() { push("rem", Some(*id), None, h); }
+        }
+        for (entity, handles) in self.despawn_reactors.iter()
+        {
+            for h in handles.iter() { push("desp", None, Some(*entity), h); }
+        }
+        for (id, handles) in self.any_entity_event_reactors.iter()
+        {
+            for h in handles.iter() { push("anyev", Some(*id), None, h); }
+        }
+        for (id, handles) in self.resource_reactors.iter()
+        {
+            for h in handles.iter() { push("res", Some(*id), None, h); }
+        }
+        for (id, handles) in self.broadcast_reactors.iter()
+        {
+            for h in handles.iter() { push("bc", Some(*id), None, h); }
+        }
     }
 
     pub(crate) fn track_removals<C: ReactComponent>(&mut self)
@@ -332,6 +373,8 @@ impl ReactCache
         entity_reactors : Query<&EntityReactors>,
     ){
         let rtype = EntityReactionType::Insertion(TypeId::of::<C>());
+        #[cfg(cobweb_verif)]
+        crate::verif::emit(crate::verif::Event::Sched{ trig: "ins", ty: Some(TypeId::of::<C>()), ent: Some(entity) });
 
         // entity-specific reactors
         if let Ok(entity_reactors) = entity_reactors.get(entity)
@@ -355,6 +398,8 @@ impl ReactCache
                             reactor         : handle.sys_command(),
                         }
                     );
+                #[cfg(cobweb_verif)]
+                crate::verif::emit(crate::verif::Event::Queued{ sys: *handle.sys_command(), data: None });
             }
         }
     }
@@ -367,6 +412,8 @@ impl ReactCache
         entity_reactors : Query<&EntityReactors>,
     ){
         let rtype = EntityReactionType::Mutation(TypeId::of::<C>());
+        #[cfg(cobweb_verif)]
+        crate::verif::emit(crate::verif::Event::Sched{ trig: "mut", ty: Some(TypeId::of::<C>()), ent: Some(entity) });
 
         // entity-specific reactors
         if let Ok(entity_reactors) = entity_reactors.get(entity)
@@ -390,6 +437,8 @@ impl ReactCache
                             reactor         : handle.sys_command(),
                         }
                     );
+                #[cfg(cobweb_verif)]
+                crate::verif::emit(crate::verif::Event::Queued{ sys: *handle.sys_command(), data: None });
             }
         }
     }
@@ -412,6 +461,8 @@ impl ReactCache
             let rtype = EntityReactionType::Removal(checker.component_id);
             for entity in buffer.iter()
             {
+                #[cfg(cobweb_verif)]
+                crate::verif::emit(crate::verif::Event::Sched{ trig: "rem", ty: Some(checker.component_id), ent: Some(*entity) });
                 // entity-specific component reactors
                 if let Some(entity_reactors) = world.get_mut::<EntityReactors>(*entity)
                 {
@@ -439,6 +490,8 @@ impl ReactCache
                                 reactor         : handle.sys_command(),
                             }
                         );
+                    #[cfg(cobweb_verif)]
+                    crate::verif::emit(crate::verif::Event::Queued{ sys: *handle.sys_command(), data: None });
                 }
             }
         }
@@ -455,6 +508,8 @@ impl ReactCache
         cache               : Res<ReactCache>,
         entity_reactors     : Query<&EntityReactors>,
     ){
+        #[cfg(cobweb_verif)]
+        crate::verif::emit(crate::verif::Event::Sched{ trig: "eev", ty: Some(TypeId::of::<E>()), ent: Some(target) });
         // get reactors
         let entity_reactors = entity_reactors.get(target);
         let handlers = cache.any_entity_event_reactors.get(&TypeId::of::<E>());
@@ -480,6 +535,8 @@ impl ReactCache
                             reactor,
                         }
                     );
+                #[cfg(cobweb_verif)]
+                crate::verif::emit(crate::verif::Event::Queued{ sys: *reactor, data: Some(data_entity) });
             }
         }
 
@@ -496,6 +553,8 @@ impl ReactCache
                         reactor: handle.sys_command(),
                     }
                 );
+                #[cfg(cobweb_verif)]
+                crate::verif::emit(crate::verif::Event::Queued{ sys: *handle.sys_command(), data: Some(data_entity) });
             }
         }
     }
@@ -505,11 +564,15 @@ impl ReactCache
     {
         while let Ok(despawned_entity) = self.despawn_receiver.try_recv()
         {
+            #[cfg(cobweb_verif)]
+            crate::verif::emit(crate::verif::Event::Sched{ trig: "desp", ty: None, ent: Some(despawned_entity) });
             let Some(mut despawn_reactors) = self.despawn_reactors.remove(&despawned_entity) else { continue; };
 
             // queue despawn callbacks
             for handle in despawn_reactors.drain(..)
             {
+                #[cfg(cobweb_verif)]
+                crate::verif::emit(crate::verif::Event::Queued{ sys: *handle.sys_command(), data: None });
                 world.commands().queue(
                         ReactionCommand::Despawn{
                             reaction_source : despawned_entity,
@@ -526,6 +589,8 @@ impl ReactCache
         cache        : Res<ReactCache>,
         mut commands : Commands,
     ){
+        #[cfg(cobweb_verif)]
+        crate::verif::emit(crate::verif::Event::Sched{ trig: "res", ty: Some(TypeId::of::<R>()), ent: None });
         let Some(handlers) = cache.resource_reactors.get(&TypeId::of::<R>()) else { return; };
 
         // queue reactors
@@ -534,6 +599,8 @@ impl ReactCache
             commands.queue(
                 ReactionCommand::Resource{ reactor: handle.sys_command() }
             );
+            #[cfg(cobweb_verif)]
+            crate::verif::emit(crate::verif::Event::Queued{ sys: *handle.sys_command(), data: None });
         }
     }
 
@@ -543,6 +610,8 @@ impl ReactCache
         cache        : Res<ReactCache>,
         mut commands : Commands,
     ){
+        #[cfg(cobweb_verif)]
+        crate::verif::emit(crate::verif::Event::Sched{ trig: "bc", ty: Some(TypeId::of::<E>()), ent: None });
         let Some(handlers) = cache.broadcast_reactors.get(&TypeId::of::<E>()) else { return; };
 
         // if there are no handlers, just drop the event data
@@ -558,6 +627,8 @@ impl ReactCache
             commands.queue(
                 ReactionCommand::BroadcastEvent{ data_entity, reactor: handle.sys_command() }
             );
+            #[cfg(cobweb_verif)]
+            crate::verif::emit(crate::verif::Event::Queued{ sys: *handle.sys_command(), data: Some(data_entity) });
         }
     }
 }
